@@ -326,6 +326,71 @@ time.sleep(120)
 """
 
 
+FORKER = r"""
+import sys, os, time, signal
+sys.path.insert(0, sys.argv[1])
+from datashard.file_lock import FileLock
+lockp, counter, nchild, reps = sys.argv[2], sys.argv[3], int(sys.argv[4]), int(sys.argv[5])
+lock = FileLock(lockp, timeout=60.0)
+lock.acquire(); lock.release()            # the handle has been used before the fork (as a long-lived Table's lock would be)
+def work():
+    for _ in range(reps):
+        lock.acquire()
+        try:
+            with open(counter) as f:
+                n = int(f.read() or 0)
+            with open(counter, "w") as f:
+                f.write(str(n + 1))
+        finally:
+            lock.release()
+kids = []
+for _ in range(nchild):
+    pid = os.fork()
+    if pid == 0:
+        work(); os._exit(0)
+    kids.append(pid)
+work()
+bad = 0
+for pid in kids:
+    _, st = os.waitpid(pid, 0)
+    bad += st != 0
+# a forked holder is killed while holding: the parent's (inherited-history) handle must still be able to acquire
+r, w = os.pipe()
+pid = os.fork()
+if pid == 0:
+    lock.acquire(); os.write(w, b"H"); time.sleep(60); os._exit(0)
+os.read(r, 1)
+os.kill(pid, signal.SIGKILL); os.waitpid(pid, 0)
+lock.timeout = 5.0
+try:
+    lock.acquire(); lock.release(); print("AFTERKILL ok")
+except TimeoutError:
+    print("AFTERKILL timeout")
+print("CHILDFAIL", bad)
+"""
+
+
+def run_forked(task):
+    """Processes created by fork() inherit the lock handle of their parent (a long-lived handle used before the fork)."""
+    res = Result()
+    with scratch_dir("c19f") as d:
+        lockp, counter = d + "/l.lock", d + "/counter"
+        open(counter, "w").write("0")
+        nchild, reps = task["nchild"], task["reps"]
+        p = subprocess.run([sys.executable, "-c", FORKER, REPO_SRC, lockp, counter, str(nchild), str(reps)], capture_output=True, text=True, timeout=600)
+        total = int(open(counter).read() or 0)
+        case = {"kind": "forked", "nchild": nchild, "reps": reps}
+        res.case(key=f"forked|{nchild}|{reps}", nontrivial=True, labels=["processes", "forked"], sample=case)
+        res.case(key="forked|sigkill", nontrivial=True, labels=["processes", "forked", "sigkill"])
+        if p.returncode != 0 or "CHILDFAIL 0" not in p.stdout:
+            res.violation("processes/forked-child-failed", f"rc={p.returncode} out={p.stdout[-200:]} err={p.stderr[-200:]}", case)
+        elif total != (nchild + 1) * reps:
+            res.violation("processes/forked-lost-increment", f"parent + {nchild} forked children x {reps} increments under an inherited lock handle gave {total}, expected {(nchild + 1) * reps}", case)
+        if "AFTERKILL timeout" in p.stdout:
+            res.violation("processes/forked-dead-holder-keeps-lock", "a forked holder was SIGKILLed while holding; the parent's handle could not acquire", case)
+    return res
+
+
 def run_processes(task):
     res = Result()
     with scratch_dir("c19p") as d:
@@ -461,6 +526,7 @@ def plan(tier, seed):
     for s in range(4 if tier == "quick" else 14):
         tasks.append({"kind": "pct", "n": n, "seed": seed * 1000 + s, "tier": tier})
     tasks.append({"kind": "procs", "nproc": 8, "reps": 60 if tier == "quick" else 400})
+    tasks.append({"kind": "forked", "nchild": 5, "reps": 60 if tier == "quick" else 300})
     tiny = {"kind": "s3", "timeout": 8.0, "contenders": [{"renew": True}, {}], "extras": [{"kind": "age", "seconds": 120}]}
     ns = 12
     for s in range(ns):
@@ -475,12 +541,17 @@ def run_task(task):
         return run_processes(task)
     if task["kind"] == "depth3":
         return run_depth3(task)
+    if task["kind"] == "forked":
+        return run_forked(task)
     res = Result()
     campaign(pct_case(), run_case, task["n"], task["seed"], res, PROP, shrink=task["tier"] == "thorough")
     return res
 
 
 def replay(case):
+    if case.get("kind") == "forked":
+        r = run_forked({"nchild": case.get("nchild", 5), "reps": case.get("reps", 60)})
+        return [{"bucket": v["bucket"], "what": v["what"]} for v in r.violations]
     if case.get("kind") == "processes":
         r = run_processes({"nproc": case.get("nproc", 8), "reps": case.get("reps", 60)})
         return [{"bucket": v["bucket"], "what": v["what"]} for v in r.violations]
